@@ -3,7 +3,7 @@
 set -e
 cd "$(dirname "$0")"
 export GOFLAGS=-mod=mod GOPROXY=off GOSUMDB=off GOTOOLCHAIN=local CGO_ENABLED=0
-cp /repo/go.sum go.sum
+cat /repo/go.sum go.sum.extra | sort -u > go.sum
 mkdir -p bin evidence replays .work
 go build -o bin/mkoverlay ./cmd/mkoverlay
 bin/mkoverlay -id setup -out .work
